@@ -169,7 +169,8 @@ pub fn explore(plan: &Plan, f: &PointFn) -> Acc {
             let keep = match case.nl {
                 2 => usize::MAX,
                 3 => 8,
-                _ => 4,
+                4 => 4,
+                _ => 2,
             };
             if ks.len() > keep {
                 let step = ks.len() as f64 / keep as f64;
